@@ -430,3 +430,48 @@ func (c *Ctx) reflEqualSite(fn *ssa.Function, in ssa.Instruction, cc *ssa.CallCo
 		c.rep.bad("R-REFL", relName(fn), construct, c.p.instrPos(in), "Value.Equal is reachable with an operand not known to be a basic (comparable) value: it panics for slices, maps and funcs")
 	}
 }
+
+// ruleMethodValue: a method looked up by reflection (Value.MethodByName) and
+// later called panics ("value method called using nil pointer") when the
+// Value is a nil pointer whose method has a value receiver.  Every lookup must
+// therefore be reached only where the Value has tested non-zero (IsZero()
+// false) or non-nil (IsNil() false) on that path.
+func (c *Ctx) ruleMethodValue() {
+	rep := c.rep
+	n := 0
+	for _, fn := range c.p.Funcs {
+		calls := c.findCalls(fn, "(reflect.Value).MethodByName", "(reflect.Value).Method")
+		if len(calls) == 0 {
+			continue
+		}
+		fa := c.eng.analyze(fn, nil)
+		ord := newOrdinal()
+		for _, mc := range calls {
+			n++
+			construct := ord.next("method lookup on a Value")
+			pos := c.p.instrPos(mc)
+			guards := c.findCalls(fn, "(reflect.Value).IsZero", "(reflect.Value).IsNil")
+			good := fa.reachable(mc) && fa.allHold(mc, func(s *State) bool {
+				rt := fa.term(s, mc.Call.Args[0])
+				for _, g := range guards {
+					if fa.term(s, g.Call.Args[0]) != rt {
+						continue
+					}
+					if v, known := fa.knownTerm(s, aTR, fa.term(s, g)); known && !v {
+						return true
+					}
+				}
+				return false
+			})
+			if good {
+				rep.ok("R-REFL", relName(fn), construct, pos, "reached only where IsZero()/IsNil() of the same Value returned false: no method of a nil pointer is ever bound")
+			} else {
+				rep.bad("R-REFL", relName(fn), construct, pos, "a method is looked up on a Value that may be a nil pointer (calling a value-receiver method through it panics)")
+			}
+		}
+	}
+	rep.Extra["reflective_method_lookups"] = n
+	if n == 0 {
+		rep.ok("R-REFL", "package", "method lookup on a Value", "?", "no reflective method lookup in the package")
+	}
+}
